@@ -9,3 +9,5 @@ import L21.Props.C13Inv
 #print axioms L21.Geom.c13_start_vertex
 #print axioms L21.Geom.c13_orientation
 #print axioms L21.Geom.c13_repeated_vertex
+#print axioms L21.Geom.c13_collinear_vertex
+#print axioms L21.Geom.c13_collinear_vertex_closing
